@@ -471,4 +471,29 @@ theorem run_clean (c : Config) (hc : CleanCfg c) (ops : List (Op × Nat)) :
     | head => exact ⟨hstep.1.2.1, hstep.2⟩
     | tail _ h => exact ih _ hstep.1 (fun y hy => hops y (by simp [hy])) e h
 
+/-! ### the deciders of the model decide the hypotheses -/
+
+theorem cleanB_iff (s : Str) : cleanB s = true ↔ Clean s := by
+  simp [cleanB, Clean]
+
+theorem singleCharsB_iff (c : Config) : singleCharsB c = true ↔ SingleChars c := by
+  unfold singleCharsB SingleChars
+  cases c.barChar <;> simp [and_assoc]
+
+theorem barWidthOkB_iff (c : Config) : barWidthOkB c = true ↔ c.barWidth < 2 ^ 52 := by
+  simp [barWidthOkB]
+
+theorem cleanCfgB_iff (c : Config) : cleanCfgB c = true ↔ CleanCfg c := by
+  unfold cleanCfgB CleanCfg
+  cases c.internalFormat <;> cases c.barChar <;> simp [cleanB_iff, and_assoc]
+
+theorem cleanOpB_iff (op : Op) : cleanOpB op = true ↔ CleanOp op := by
+  cases op <;> simp [cleanOpB, CleanOp, cleanB_iff]
+
+theorem cleanOpsB_iff (ops : List (Op × Nat)) : cleanOpsB ops = true ↔ ∀ x ∈ ops, CleanOp x.1 := by
+  simp [cleanOpsB, cleanOpB_iff]
+
+theorem noErrB_iff (evs : List Event) : noErrB evs = true ↔ ∀ e ∈ evs, e.res.err = none := by
+  simp [noErrB]
+
 end Clikit.Progress
